@@ -60,6 +60,18 @@ struct User : public serializable {
 };
 template<> struct RL<User>{ static bool load(Ref &r,User &u){ return RL<int>::load(r,u.id)&&RL<std::string>::load(r,u.name)&&RL<std::vector<std::string> >::load(r,u.tags)&&RL<booster::shared_ptr<std::string> >::load(r,u.opt);} };
 
+// the other supported smart pointers; a reference-counted list node for intrusive_ptr; a clonable class for clone_ptr
+struct Node : public serializable { int v; booster::intrusive_ptr<Node> next; int refs; Node():v(0),refs(0){} Node(const Node &o):serializable(o),v(o.v),next(o.next),refs(0){} void serialize(archive &a){ a & v & next; } };
+inline void intrusive_ptr_add_ref(Node *p){ ++p->refs; } inline void intrusive_ptr_release(Node *p){ if(--p->refs==0) delete p; }
+typedef booster::intrusive_ptr<Node> PNode;
+struct Cl : public serializable { std::string s; Cl *clone() const { return new Cl(*this); } void serialize(archive &a){ a & s; } };
+template<> struct RL<Node>{ static bool load(Ref &r,Node &n); };
+#define RLPTR(P) template<class V> struct RL<P<V> >{ static bool load(Ref &r,P<V> &p){ char e; if(!rl_pod(r,e)) return false; if(e){ p=P<V>(); return true;} p=P<V>(new V()); return RL<V>::load(r,*p);} };
+RLPTR(booster::intrusive_ptr) RLPTR(booster::hold_ptr) RLPTR(booster::copy_ptr) RLPTR(booster::clone_ptr)
+template<class V> struct RL<std::unique_ptr<V> >{ static bool load(Ref &r,std::unique_ptr<V> &p){ char e; if(!rl_pod(r,e)) return false; if(e){ p.reset(); return true;} p.reset(new V()); return RL<V>::load(r,*p);} };
+bool RL<Node>::load(Ref &r,Node &n){ return RL<int>::load(r,n.v)&&RL<PNode>::load(r,n.next); }
+template<> struct RL<Cl>{ static bool load(Ref &r,Cl &c){ return RL<std::string>::load(r,c.s);} };
+
 // ---------------- canonical rendering (for equality and outcome counting) --------------------
 template<class T> std::string bits(const T &v){ return vf::hex(std::string((const char*)&v,sizeof v)); }
 std::string canon(char v){ return "c"+bits(v);} std::string canon(int v){ return "i"+std::to_string(v);} std::string canon(short v){ return "h"+std::to_string(v);}
@@ -68,13 +80,17 @@ std::string canon(double v){ return "d"+bits(v);} std::string canon(const std::s
 std::string canon(const json::value &v){ std::ostringstream o; v.save(o); return "j"+o.str(); }
 template<class A,class B> std::string canon(const std::pair<A,B> &p);
 template<class V> std::string canon(const booster::shared_ptr<V> &p);
-std::string canon(const User &u);
+std::string canon(const User &u); struct Node; struct Cl;
 template<class C> std::string canon_c(const C &c){ std::string r="["; for(typename C::const_iterator i=c.begin();i!=c.end();++i){ r+=canon(*i); r+=","; } return r+"]"; }
 template<class V> std::string canon(const std::vector<V> &c){ return canon_c(c);} template<class V> std::string canon(const std::list<V> &c){ return canon_c(c);}
 template<class V> std::string canon(const std::set<V> &c){ return canon_c(c);} template<class V> std::string canon(const std::multiset<V> &c){ return canon_c(c);}
 template<class K,class V> std::string canon(const std::map<K,V> &c){ return canon_c(c);} template<class K,class V> std::string canon(const std::multimap<K,V> &c){ return canon_c(c);}
 template<class A,class B> std::string canon(const std::pair<A,B> &p){ return "("+canon(p.first)+";"+canon(p.second)+")"; }
 template<class V> std::string canon(const booster::shared_ptr<V> &p){ return p? "P"+canon(*p) : std::string("null"); }
+std::string canon(const Node &n); std::string canon(const Cl &c){ return "Cl{"+canon(c.s)+"}"; }
+#define CANONPTR(P) template<class V> std::string canon(const P<V> &p){ return p.get()? "P"+canon(*p) : std::string("null"); }
+CANONPTR(booster::intrusive_ptr) CANONPTR(booster::hold_ptr) CANONPTR(booster::copy_ptr) CANONPTR(booster::clone_ptr) CANONPTR(std::unique_ptr)
+std::string canon(const Node &n){ return "N{"+canon(n.v)+canon(n.next)+"}"; }
 std::string canon(const User &u){ return "U{"+canon(u.id)+canon(u.name)+canon(u.tags)+canon(u.opt)+"}"; }
 template<class T,int n> std::string canon_arr(const T (&v)[n]){ std::string r="A["; for(int i=0;i<n;i++) r+=canon(v[i])+","; return r+"]"; }
 struct Int3 { int v[3]; }; struct Str2 { std::string v[2]; };
@@ -142,6 +158,12 @@ template<class K,class V> struct U<std::map<K,V> >{ static void get(std::vector<
 template<class K,class V> struct U<std::multimap<K,V> >{ static void get(std::vector<std::multimap<K,V> > &o){ ucont<std::multimap<K,V>,std::pair<K,V> >(o);} };
 template<class V> struct U<booster::shared_ptr<V> >{ static void get(std::vector<booster::shared_ptr<V> > &o){ o.push_back(booster::shared_ptr<V>()); std::vector<V> e; U<V>::get(e); for(size_t i=0;i<e.size()&&i<3;i++) o.push_back(booster::shared_ptr<V>(new V(e[i]))); } };
 template<> struct U<User>{ static void get(std::vector<User> &o){ User u; o.push_back(u); u.id=7; u.name=std::string("n\0m",3); u.tags.push_back(""); u.tags.push_back("t"); o.push_back(u); u.opt.reset(new std::string("opt")); o.push_back(u);} };
+template<> struct U<Cl>{ static void get(std::vector<Cl> &o){ Cl c; o.push_back(c); c.s="cl"; o.push_back(c); c.s=std::string(40,'k'); o.push_back(c);} };
+static PNode mklist(int n,int base){ PNode h; for(int i=n;i>=1;i--){ PNode x(new Node()); x->v=base+i; x->next=h; h=x; } return h; }
+template<> struct U<PNode>{ static void get(std::vector<PNode> &o){ o.push_back(PNode()); o.push_back(mklist(1,10)); o.push_back(mklist(2,20)); o.push_back(mklist(3,30)); } };
+template<> struct U<Node>{ static void get(std::vector<Node> &o){ Node n; o.push_back(n); n.v=5; o.push_back(n); n.next=mklist(1,40); o.push_back(n); n.v=6; n.next=mklist(3,50); o.push_back(n);} };
+#define UPTR(P) template<class V> struct U<P<V> >{ static void get(std::vector<P<V> > &o){ o.push_back(P<V>()); std::vector<V> e; U<V>::get(e); for(size_t i=0;i<e.size()&&i<3;i++) o.push_back(P<V>(new V(e[i]))); } };
+UPTR(booster::hold_ptr) UPTR(booster::copy_ptr) UPTR(booster::clone_ptr) UPTR(std::unique_ptr)
 template<> struct U<Int3>{ static void get(std::vector<Int3> &o){ Int3 a={{0,0,0}}; o.push_back(a); Int3 b={{1,-1,0x01020304}}; o.push_back(b);} };
 template<> struct U<Str2>{ static void get(std::vector<Str2> &o){ Str2 a; o.push_back(a); a.v[0]="p"; a.v[1]=std::string(20,'z'); o.push_back(a);} };
 
@@ -159,6 +181,12 @@ template<class T> void type_pass(const char *tname,int shard,int nshards,int &co
 		if(cls.compare(0,5,"throw")==0) vf::violation(std::string("roundtrip-throw:")+tname,"load of an archive produced by save throws","\"type\":"+vf::jstr(tname)+",\"archive_hex\":"+vf::jstr(vf::hex(bytes)));
 		{ Ref r(bytes); T t=T(); if(!RL<T>::load(r,t)||r.p!=bytes.size()||canon(t)!=canon(vals[vi])){ fprintf(stderr,"harness error: reference reader disagrees with the writer for %s\n",tname); vf::C().harness_error=true; } }
 		vf::guard("roundtrips");
+		// (a2) the same archive loaded into a target that is NOT fresh: it already holds another value of the universe (an object
+		// reused for a second fetch_data / archive >> obj). What is loaded must still equal what was saved.
+		g_phase="reused-target";
+		for(size_t vj=0;vj<vals.size();vj++){ vf::eval(); archive b; archive_traits<T>::save(vals[vj],b); T tgt=T(); std::string ex; try{ archive l; l.str(b.str()); archive_traits<T>::load(tgt,l); archive l2; l2.str(bytes); archive_traits<T>::load(tgt,l2); if(!l2.eof()) ex="archive not consumed"; }catch(std::exception const &e){ ex=std::string("throws ")+e.what(); }
+			if(!ex.empty()||canon(tgt)!=canon(vals[vi])) vf::violation(std::string("reused-target:")+tname,std::string("an archive of ")+canon(vals[vi]).substr(0,80)+" loaded into a "+tname+" that already held "+canon(vals[vj]).substr(0,80)+" gives "+(ex.empty()?canon(tgt).substr(0,120):ex),"\"type\":"+vf::jstr(tname)+",\"archive_hex\":"+vf::jstr(vf::hex(bytes))+",\"previous_archive_hex\":"+vf::jstr(vf::hex(b.str())));
+			vf::guard("loads_into_used_target"); }
 		if(vi<2) vf::sample("{\"type\":"+vf::jstr(tname)+",\"phase\":\"roundtrip\",\"archive_hex\":"+vf::jstr(vf::hex(bytes.substr(0,64)))+",\"outcome\":"+vf::jstr(cls.substr(0,60))+"}",40);
 		// (b1) every truncation, and every extension by 1..4 bytes
 		g_phase="trunc";
@@ -211,6 +239,7 @@ static void all_types(int shard,int nshards){ int counter=0;
 	TP(VecI,"vector<int>"); TP(std::vector<char>,"vector<char>"); TP(std::vector<double>,"vector<double>"); TP(VecS,"vector<string>"); TP(ListPIS,"list<pair<int,string>>"); TP(MapSVI,"map<string,vector<int>>");
 	TP(std::set<int>,"set<int>"); TP(std::multiset<std::string>,"multiset<string>"); TP(MMapIS,"multimap<int,string>"); TP(MapSI,"map<string,int>"); TP(PStr,"shared_ptr<string>"); TP(json::value,"json::value");
 	TP(User,"User"); TP(Int3,"int[3]"); TP(Str2,"string[2]");
+	TP(PNode,"intrusive_ptr<Node>"); TP(Node,"Node{int,intrusive_ptr<Node>}"); TP(booster::hold_ptr<std::string>,"hold_ptr<string>"); TP(booster::copy_ptr<std::string>,"copy_ptr<string>"); TP(booster::clone_ptr<Cl>,"clone_ptr<Cl>"); TP(std::unique_ptr<std::string>,"unique_ptr<string>"); TP(std::vector<PNode>,"vector<intrusive_ptr<Node>>");
 	TP(VecVecS,"vector<vector<string>>"); TP(MapSMapIS,"map<string,map<int,string>>"); TP(PVecS,"shared_ptr<vector<string>>"); TP(VecPStr,"vector<shared_ptr<string>>"); TP(VecUser,"vector<User>"); TP(PairIVD,"pair<int,vector<double>>");
 }
 
